@@ -204,6 +204,39 @@ func (p *Path) query(c *Term, wantModel bool) (SatResult, Model) {
 	return r, m
 }
 
+// dumpObligation writes every n-th decided obligation as a stand-alone script whose
+// first line records z3's verdict, for the cross-solver comparison done by the driver.
+func (p *Path) dumpObligation(name string, negated *Term, verdict SatResult) {
+	w := p.w
+	if w.cfg.DumpDir == "" || verdict == Unknown {
+		return
+	}
+	w.oblCount++
+	if w.cfg.DumpEvery > 1 && w.oblCount%w.cfg.DumpEvery != 0 {
+		return
+	}
+	if w.dumped >= w.cfg.DumpMax {
+		return
+	}
+	w.dumped++
+	var sb strings.Builder
+	sb.WriteString(fmt.Sprintf("; expect %s ; harness %s ; obligation %s\n(set-logic ALL)\n", verdict, p.curHarness, name))
+	names := make([]string, 0, len(p.vars))
+	for n := range p.vars {
+		names = append(names, n)
+	}
+	sort.Strings(names)
+	for _, n := range names {
+		sb.WriteString(fmt.Sprintf("(declare-const %s %s)\n", smtName(n), sortStr(p.vars[n])))
+	}
+	pr := Printer{}
+	for _, t := range p.pc {
+		sb.WriteString("(assert " + pr.Print(t) + ")\n")
+	}
+	sb.WriteString("(assert " + pr.Print(negated) + ")\n(check-sat)\n")
+	os.WriteFile(fmt.Sprintf("%s/w%d-%d.smt2", w.cfg.DumpDir, w.id, w.dumped), []byte(sb.String()), 0o644)
+}
+
 // fallback re-submits pc ∧ c as a stand-alone script to z3 5.x and to cvc5
 // (with the integer encoding of bit-vector arithmetic), each under a longer limit.
 func (p *Path) fallback(c *Term, wantModel bool) (SatResult, Model) {
@@ -571,6 +604,7 @@ func (p *Path) Obligation(name string, c *Term) {
 	p.obligations++
 	nc := p.pool.BNot(c)
 	r, m := p.query(nc, true)
+	p.dumpObligation(name, nc, r)
 	switch r {
 	case Unsat:
 		p.discharged++
